@@ -56,4 +56,7 @@ pub fn b_le16(b: &[u8]) -> Option<u16> { if b.len() < 2 { return None; } Some(u1
 pub fn b_starts(b: &[u8]) -> bool { b.starts_with(b"\r\n") }
 pub fn b_contains(b: &[u8]) -> bool { b.contains(&b'\r') }
 pub fn b_eq(b: &[u8]) -> bool { b == b"PROXY" }
+pub fn b_chunks(b: &[u8]) -> usize { let mut c = b.chunks_exact(2); let a = c.next().map(|x| x[0] as usize).unwrap_or(300); let d = c.next().map(|x| x[1] as usize).unwrap_or(300); a * 1000000 + d * 1000 + c.remainder().len() }
+fn take_n<const N: usize>(b: &[u8]) -> Option<[u8; N]> { b.get(..N)?.try_into().ok() }
+pub fn b_constgen(b: &[u8]) -> usize { take_n::<3>(b).map(|a| a[2] as usize).unwrap_or(999) }
 pub fn u_sat(b: &[u8]) -> usize { let n = b.len(); (n as u16).saturating_add(65533) as usize + n.saturating_sub(3) + n.checked_sub(2).unwrap_or(77) + n.min(2) + n.max(4) }
